@@ -2,6 +2,8 @@ import Drive.Util
 import Drive.Timer
 import Drive.Interp
 import Drive.Btdmp
+import Drive.Apbp
+import Drive.Icu
 /-!
 Line-protocol driver for the executable model: one request per line on stdin, one response per
 line on stdout.  `<unit> <op> <hex args…>`.
@@ -12,12 +14,18 @@ structure St where
   timer : Timer := {}
   core : Core := {}
   btdmp : Btdmp := {}
+  apbp : Apbp := {}
+  apbpSys : ApbpSys := {}
+  icu : Icu := {}
 
 def stepLine (st : St) (line : String) : St × String :=
   match (line.trimAscii.toString.splitOn " ").filter (· ≠ "") with
   | "timer" :: args => let (t, out) := timerStep st.timer args; ({ st with timer := t }, out)
   | "interp" :: args => let (c, out) := interpStep st.core args; ({ st with core := c }, out)
   | "btdmp" :: args => let (b, out) := btdmpStep st.btdmp args; ({ st with btdmp := b }, out)
+  | "apbp" :: args => let (a, out) := apbpStep st.apbp args; ({ st with apbp := a }, out)
+  | "apbpsys" :: args => let (a, out) := apbpSysStep st.apbpSys args; ({ st with apbpSys := a }, out)
+  | "icu" :: args => let (a, out) := icuStep st.icu args; ({ st with icu := a }, out)
   | [] => (st, "")
   | _ => (st, "bad-unit")
 
